@@ -562,9 +562,10 @@ def interpolate_ntv2(grid_object, lat, lon, method='bicubic'):
     num_rows = 1 + int(round((in_grid.n_lat - in_grid.s_lat) / in_grid.lat_inc))
     num_cols = 1 + int(round((in_grid.w_long - in_grid.e_long) / in_grid.long_inc))
 
-    # determine row and col numbers of node below right of point
-    row = int((lat - in_grid.s_lat) / in_grid.lat_inc)
-    col = int((lon - in_grid.e_long) / in_grid.long_inc)
+    # determine row and col numbers of node below right of point (a point within rounding error
+    # of the north or west limit belongs to the last row or column of cells)
+    row = min(int((lat - in_grid.s_lat) / in_grid.lat_inc), num_rows - 2)
+    col = min(int((lon - in_grid.e_long) / in_grid.long_inc), num_cols - 2)
 
     # locate data in gsb_file
     skip_bytes = 176    # grid header length
